@@ -5,6 +5,7 @@ package pilosa_test
 
 import (
 	"context"
+	"strings"
 	"os"
 	"regexp"
 	"strconv"
@@ -78,4 +79,22 @@ func vrcSyncData(c test.Cluster, k int, index string) (stale bool, err error) {
 		err = c[k].Server.SyncData()
 	}
 	return stale, err
+}
+
+// vrcCreateField is API.CreateField with a retry for one environmental error:
+// a peer opens the new field's boltdb attribute store with a 1 s lock timeout,
+// and on an overloaded machine answers "opening storage: timeout". That is not
+// what any of these legs is about; the field is dropped and created again.
+func vrcCreateField(api *pilosa.API, index, name string, opts ...pilosa.FieldOption) (*pilosa.Field, error) {
+	var f *pilosa.Field
+	var err error
+	for attempt := 0; attempt < 5; attempt++ {
+		f, err = api.CreateField(context.Background(), index, name, opts...)
+		if err == nil || !strings.Contains(err.Error(), "opening storage: timeout") {
+			return f, err
+		}
+		_ = api.DeleteField(context.Background(), index, name)
+		time.Sleep(300 * time.Millisecond)
+	}
+	return f, err
 }
